@@ -26,7 +26,7 @@ TheUniverse ==
    tout |-> <<<<[a |-> 0, v |-> 0]>>, <<[a |-> 1, v |-> 5]>>, <<[a |-> 1, v |-> 5]>>, <<[a |-> 2, v |-> 5]>>>>,
    vsz  |-> <<100, 100, 100, 100>>]
 
-Cfg0 == [net |-> "regtest", thr |-> 2, api |-> TRUE, syncing |-> TRUE, gate |-> FALSE, lazy |-> TRUE,
+Cfg0 == [net |-> "regtest", thr |-> 2, api |-> TRUE, syncing |-> TRUE, gate |-> FALSE, lazy |-> TRUE, burn |-> FALSE,
          fees |-> [ub |-> 0, ur |-> 0, um |-> 0, bal |-> 0, balm |-> 0, pct |-> 0, pctm |-> 0,
                    hb |-> 0, hr |-> 0, hm |-> 0, sb |-> 0, sp |-> 0]]
 
